@@ -374,8 +374,13 @@ every edit operation goes through them or keeps a non-empty span non-empty (`Loc
 edits: `expand_ins`, `normalize_mod`, …).  The one constructor that does NOT check is the PARSER:
 `parseRange` (and `parseAmbiguous`) fill the struct literal from the two numbers they read, so the text
 `5..4` is `Ranged{4, 4}` — empty — and `5..3` is `Ranged{4, 3}`; both are canonical, so they are written
-and read back as themselves.  A record READ from a file can hold one; a record built through the API
-cannot. -/
+and read back as themselves.  A record READ from a file can hold one; a record built through the
+constructors cannot (the struct types are exported, so a literal `gts.Ranged{4, 4, …}` can).  What the
+edits then do with it is outside the domain of every check ("ranges with Start >= End are outside the
+domain"): `Ranged.Reverse` and the split branch of `Ranged.Normalize` go through `PartialRange` and PANIC
+(`loc.reverse (R 4 4 0 0) 10` on the code; the model, total there, answers `(R 6 6 0 0)`), and
+`Normalize(Ranged{4, 4}, 10)` is `join(5..10,1..4)` on both sides — the empty range becomes the whole
+circle. -/
 theorem empty_ranged_from_parser :
     parseLocation (str "5..4") = .ok (ranged 4 4 false false, []) ∧
     parseLocation (str "5..3") = .ok (ranged 4 3 false false, []) ∧
